@@ -437,6 +437,14 @@ func (m *Muxer) readLoop() {
 		recvChan.mu.Lock()
 		if recvChan.ch == nil {
 			recvChan.mu.Unlock()
+			// The protocol was unregistered after the lookup above. Returning
+			// silently would leave the connection open with nobody reading it
+			m.sendError(
+				fmt.Errorf(
+					"received message for unknown protocol ID %d",
+					msg.GetProtocolId(),
+				),
+			)
 			return
 		}
 
